@@ -128,7 +128,7 @@ func (w *world) verifyFunc(con *Contract, fn *ssa.Function, mode string, variant
 		if o.panic {
 			for _, cl := range con.Ensures {
 				if cl.OnPanic {
-					goal := x.evalEnsures(con, cl, x.pre.clone(), o.st.snaps["lp"], o.st, penv, penv)
+					goal := x.evalEnsures(con, cl, x.pre.clone(), cloneOrNil(o.st.snaps["lp"]), cloneOrNil(o.st.snaps["lpend"]), o.st, penv, penv)
 					x.oblige(o.st, "ensures-on-panic", cl.Tag(), "", goal, "")
 				}
 			}
@@ -152,15 +152,11 @@ func (w *world) verifyFunc(con *Contract, fn *ssa.Function, mode string, variant
 			if cl.OnPanic {
 				continue
 			}
-			var lp *state
-			if s := o.st.snaps["lp"]; s != nil {
-				lp = s.clone()
-			}
-			goal := x.evalEnsures(con, cl, x.pre.clone(), lp, o.st, penv, renv)
+			goal := x.evalEnsures(con, cl, x.pre.clone(), cloneOrNil(o.st.snaps["lp"]), cloneOrNil(o.st.snaps["lpend"]), o.st, penv, renv)
 			x.oblige(o.st, "ensures", cl.Tag(), "", goal, "")
 		}
 		if !con.Flags["noframe"] {
-			x.frameObligations(o.st, con, penv)
+			x.frameObligations(o.st, con, penv, o.ret)
 		}
 		x.fieldInvObligations(o.st, con, penv)
 	}
@@ -218,7 +214,7 @@ func (x *ctx) setupConformance(variant *types.Named) {
 }
 
 // frameObligations: every heap key changed by the function must be covered by its modifies clause.
-func (x *ctx) frameObligations(st *state, con *Contract, penv envFn) {
+func (x *ctx) frameObligations(st *state, con *Contract, penv envFn, ret val) {
 	whole := map[string]bool{}
 	allowAll := false
 	locs := map[string][]string{} // key -> index terms allowed to change
@@ -236,6 +232,11 @@ func (x *ctx) frameObligations(st *state, con *Contract, penv envFn) {
 			}
 		case "ghostall":
 			whole[x.ghostKey(mi.Ghost)] = true
+		case "resultfield":
+			if ret.t.s != "" {
+				k := x.akey("G:" + mi.Field)
+				locs[k] = append(locs[k], ret.t.s)
+			}
 		case "ghost":
 			if len(mi.ArgFns) == 0 {
 				whole[x.ghostKey(mi.Ghost)] = true
@@ -301,6 +302,27 @@ func (x *ctx) frameObligations(st *state, con *Contract, penv envFn) {
 		if cur == init {
 			continue
 		}
+		if x.mode == "itf" {
+			isItf := false
+			for _, ik := range x.w.itfKeys {
+				if ik == k {
+					isItf = true
+				}
+			}
+			if isItf {
+				continue // changed by other goroutines between critical sections: not this function's frame
+			}
+		}
+		if hi, ok := x.hinfo[k]; ok {
+			srt := fmt.Sprintf("(Array (_ BitVec 64) %s)", hi.elem.name)
+			if hi.indexed {
+				srt = fmt.Sprintf("(Array (_ BitVec 64) (Array (_ BitVec 64) %s))", hi.elem.name)
+			}
+			if len(hi.ksorts) > 0 || strings.HasPrefix(k, "G:") {
+				srt = ghostSort(hi)
+			}
+			x.declare(init, srt)
+		}
 		allowed := init
 		for _, l := range locs[k] {
 			allowed = fmt.Sprintf("(store %s %s (select %s %s))", allowed, l, cur, l)
@@ -345,7 +367,7 @@ func (x *ctx) fieldInvObligations(st *state, con *Contract, penv envFn) {
 func frameExempt(k string) bool {
 	switch {
 	case k == "Len", strings.HasPrefix(k, "E:"), strings.HasPrefix(k, "G:mapP"), strings.HasPrefix(k, "G:mapV"), k == "G:mapN",
-		strings.HasPrefix(k, "G:lp"), k == "G:chanSent", k == "G:wgDone", strings.HasPrefix(k, "deref."):
+		strings.HasPrefix(k, "G:lp"), k == "G:chanSent", k == "G:wgDone", strings.HasPrefix(k, "deref."), strings.HasPrefix(k, "G:arg_"), strings.HasPrefix(k, "G:ret_"), strings.HasPrefix(k, "G:last_"):
 		return true
 	}
 	return false
@@ -356,6 +378,13 @@ func (x *ctx) initialName(key string) string {
 		return "G_" + symName(strings.TrimPrefix(key, "G:"))
 	}
 	return "H_" + symName(key)
+}
+
+func cloneOrNil(s *state) *state {
+	if s == nil {
+		return nil
+	}
+	return s.clone()
 }
 
 type runOpts struct {
